@@ -45,6 +45,7 @@ func runC20(r *Run) {
 		"float rounding cannot cause disagreement because every instant is a multiple of 2^-9 s (1953125 ns, exactly representable in seconds) and rates are " +
 		"integers <= 1000 or dyadic fractions (ReserveN only with power-of-two rates 2^-3..2^9, so the wait is a whole number of quanta); includes steps back in time, " +
 		"idle gaps that hit the cap, rate 0 and rate Inf. " +
+		"T2 limiter with cancellations: ReserveN / CancelAt / AllowN(+-1) on monotone synthetic timelines (power-of-two rates) vs Model/RateCancel (lastEvent modelled); " +
 		"T2 gate: real Server with a limiter whose refill is irrelevant (rate 0, or 1 token/hour) driven sequentially: inbound queries of every method, " +
 		"Server.Query with all 16 QueryRateLimiting combinations x NumTries 1..3, WaitToReply on/off, blocklisted destinations, injected socket write failures, closed server; " +
 		"each outcome (datagram, logged drop, Query result) vs writeGate/querySend in Lean. " +
@@ -54,10 +55,12 @@ func runC20(r *Run) {
 	r.note("assumed, not verified: x/time/rate orders concurrent callers by the instant each read the clock, not by lock order (a stale `now` moves `last` back); the Lean bucket reproduces this on synthetic timelines (steps back in time), the theorems assume a clock that never steps back")
 	c20Policies(r)
 	c20Limiter(r)
+	c20LimiterCancel(r)
 	c20Gate(r)
 	c20Floods(r)
 	c20Shared(r)
 	c20WaitCancel(r)
+	c20GiveBackCancel(r)
 }
 
 // ---- policy table (emitted so the diff also covers the driver's parsing) ----
@@ -1207,5 +1210,186 @@ func c20WaitCancel(r *Run) {
 		r.hist(fmt.Sprintf("wait-cancel/rate=%s/burst=%d/waiters=%d", x, burst, nWait))
 		r.count(fmt.Sprintf("wait-cancel/%d", i), true)
 		r.Result.TracesValidated++
+	}
+}
+
+// ---- T3: a token handed back after a failed write while another query waits for budget ----
+
+// x/time/rate computes what an abandoned reservation restores from the limiter's `lastEvent`;
+// handing a token back with AllowN(now, -1) moves `lastEvent` to now, i.e. BEFORE the slot of a
+// pending reservation. History: the burst is spent, the socket write of the last of those sends is
+// held; a further query waits for budget (reservation); the held write fails (token handed back);
+// the waiter is cancelled; later queries are issued. Oracle: prefix budget over the datagrams
+// actually written, as everywhere else.
+func c20GiveBackCancel(r *Run) {
+	for i := 0; i < r.n(12, 120); i++ {
+		x := []c20Rate{{1, 1}, {2, 1}, {5, 1}}[r.rng.Intn(3)]
+		burst := 2 + r.rng.Intn(3)
+		t0 := time.Now()
+		lim := rate.NewLimiter(x.limit(), burst)
+		conn := newFakeConn(nil)
+		cfg := baseConfig(conn)
+		cfg.SendLimiter = lim
+		s, err := dht.NewServer(cfg)
+		if err != nil {
+			r.violation("NewServer failed: "+err.Error(), nil)
+			return
+		}
+		var events []string
+		ev := func(f string, a ...interface{}) {
+			events = append(events, fmt.Sprintf("+%v ", time.Since(t0).Round(100*time.Microsecond))+fmt.Sprintf(f, a...))
+		}
+		gate := make(chan struct{})
+		var held atomic.Bool
+		var holdNext atomic.Bool
+		conn.failWrite = func(n int, b []byte, addr net.Addr) error {
+			if holdNext.Swap(false) {
+				held.Store(true)
+				<-gate
+				return errors.New("sendto: network is unreachable")
+			}
+			return nil
+		}
+		var wg sync.WaitGroup
+		k := 0
+		issue := func(name string, ctx context.Context) {
+			wg.Add(1)
+			dst := dht.NewAddr(&net.UDPAddr{IP: net.IP{198, 51, 100, byte(k + 1)}, Port: 7000 + k})
+			k++
+			go func() {
+				defer wg.Done()
+				s.Query(ctx, dst, "ping", dht.QueryInput{NumTries: 1})
+			}()
+			ev("%s issued", name)
+		}
+		all, cancelAll := context.WithCancel(context.Background())
+		for j := 0; j < burst-1; j++ {
+			issue("burst query", all)
+		}
+		conn.waitWrites(burst-1, time.Second)
+		holdNext.Store(true)
+		issue("burst query whose socket write is held and will fail", all)
+		if !waitFor(held.Load, time.Second) {
+			cancelAll()
+			close(gate)
+			s.Close()
+			continue
+		}
+		wctx, wcancel := context.WithCancel(context.Background())
+		issue("waiter (no budget left: reserves the next slot)", wctx)
+		time.Sleep(2 * time.Millisecond)
+		close(gate)
+		ev("held write fails: its token is handed back")
+		time.Sleep(time.Millisecond)
+		wcancel()
+		ev("waiter cancelled: its reservation is abandoned")
+		time.Sleep(time.Millisecond)
+		later := 2 + r.rng.Intn(2)
+		for j := 0; j < later; j++ {
+			issue("later query", all)
+		}
+		time.Sleep(5 * time.Millisecond)
+		cancelAll()
+		wg.Wait()
+		s.Close()
+		ws := conn.writes()
+		for n, w := range ws {
+			dt := w.At.Sub(t0).Nanoseconds()
+			if !c20Within(x, burst, n+1, dt) {
+				e := append([]string{}, events...)
+				for m, w2 := range ws[:n+1] {
+					e = append(e, fmt.Sprintf("datagram %d written at +%v", m+1, w2.At.Sub(t0).Round(100*time.Microsecond)))
+				}
+				r.violation(fmt.Sprintf("rated datagrams exceed burst + rate*t: %d datagrams by +%v with rate %s/s burst %d (token handed back after a failed write while a query waited, then the waiter was abandoned)", n+1, w.At.Sub(t0).Round(100*time.Microsecond), x, burst),
+					map[string]interface{}{"events": e})
+				break
+			}
+		}
+		r.hist(fmt.Sprintf("giveback-cancel/rate=%s/burst=%d/written=%d", x, burst, len(ws)))
+		r.count(fmt.Sprintf("giveback-cancel/%d", i), true)
+		r.Result.TracesValidated++
+	}
+}
+
+// ---- T2: rate.Limiter incl. Reservation.CancelAt vs the Lean bucket with lastEvent (Model/RateCancel) ----
+
+// Synthetic monotone timelines on the 2^-9 s grid with power-of-two rates (every wait is a whole number
+// of quanta, float64 arithmetic exact): AllowN(t,1), ReserveN(t,1), AllowN(t,-1) and CancelAt(t) of a
+// PRNG-chosen earlier reservation. The limiter's fields are not observable; agreement is judged on every
+// later Allow answer and reservation slot.
+func c20LimiterCancel(r *Run) {
+	base := time.Unix(1700000000, 0)
+	pow2 := []c20Rate{{1, 8}, {1, 4}, {1, 2}, {1, 1}, {2, 1}, {4, 1}, {8, 1}, {16, 1}, {32, 1}, {64, 1}, {128, 1}, {256, 1}, {512, 1}}
+	for c := 0; c < r.n(300, 10000); c++ {
+		x := pow2[r.rng.Intn(len(pow2))]
+		burst := []int{1, 1, 2, 3, 5}[r.rng.Intn(5)]
+		lim := rate.NewLimiter(x.limit(), burst)
+		r.op(fmt.Sprintf("RATE cnew %d %d %d 0", x.p, x.q, burst), "ok")
+		period := 512 * x.q / x.p
+		if period < 1 {
+			period = 1
+		}
+		t := int64(0)
+		type resv struct {
+			rv   *rate.Reservation
+			slot int64
+			done bool
+		}
+		var rs []*resv
+		var replay []string
+		cancels, gives := 0, 0
+		for i := 0; i < 15+r.rng.Intn(50); i++ {
+			var dq int64
+			switch r.rng.Intn(8) {
+			case 0, 1, 2:
+				dq = 0
+			case 3:
+				dq = 1
+			case 4:
+				dq = period / 2
+			case 5:
+				dq = period
+			default:
+				dq = int64(r.rng.Intn(int(2*period + 2)))
+			}
+			t += dq * c20Quantum
+			now := base.Add(time.Duration(t))
+			var op, got string
+			switch k := r.rng.Intn(20); {
+			case k < 6:
+				rv := lim.ReserveN(now, 1)
+				op = fmt.Sprintf("RATE creserve %d -", t)
+				if rv.OK() {
+					at := t + int64(rv.DelayFrom(now))
+					got = fmt.Sprintf("%d %d", len(rs), at)
+					rs = append(rs, &resv{rv, at, false})
+				} else {
+					got = "no"
+				}
+			case k < 8:
+				ok := lim.AllowN(now, -1)
+				op, got = fmt.Sprintf("RATE cgive %d", t), b2s(ok)
+				gives++
+			case k < 13 && len(rs) > 0:
+				id := r.rng.Intn(len(rs))
+				if rs[id].done {
+					continue
+				}
+				rs[id].rv.CancelAt(now)
+				rs[id].done = true
+				op, got = fmt.Sprintf("RATE cancel %d %d", id, t), "ok"
+				cancels++
+			default:
+				ok := lim.AllowN(now, 1)
+				op, got = fmt.Sprintf("RATE callow %d", t), b2s(ok)
+			}
+			r.op(op, got)
+			replay = append(replay, op+" => "+got)
+		}
+		r.hist(fmt.Sprintf("limiter-cancel/cancels>0=%v/gives>0=%v", cancels > 0, gives > 0))
+		r.count(fmt.Sprintf("limc %v %d %s", x, burst, strings.Join(replay, ";")), cancels > 0)
+		if c < 1 {
+			r.sample(map[string]interface{}{"limiter": x.String(), "burst": burst, "ops": replay[:min(len(replay), 12)]})
+		}
 	}
 }
